@@ -1,12 +1,15 @@
 package main
 
 import (
+	"context"
 	"fmt"
 	"math"
 	"math/rand"
 	"strconv"
 	"strings"
 	"time"
+
+	"github.com/bool64/cache"
 )
 
 // C06: TTL and context travel through Failover as documented.
@@ -25,7 +28,7 @@ func init() {
 			"callers cancel / are pre-cancelled / carry deadlines; SkipRead Gets on fresh entries; the harness backend wrapper and builders record TTL(ctx), Err, Done, Deadline and the ctx value; " +
 			"oracle = reference fold 'minimal non-zero TTL' for the final store, exact UpdateTTL and stale token for the refresh store, caller TTL after Get, detached context inside background builds and their final Write, " +
 			"stored expiry (Walk) within the C10 interval of the expected TTL, SkipRead forces a build whose result is stored; distinct_nontrivial = distinct (config, caller cell, update list, path) combinations judged",
-		Required:    []string{"final_writes.checked", "refresh_writes.checked", "bg_builds.checked", "bg_builds.caller_cancelled", "skipread.owner_built", "expiry.checked", "fold.with_cell", "fold.zero_update_on_nonzero", "caller_ttl_after.checked", "path.sync", "path.bg", "built_values.store_checked"},
+		Required:    []string{"final_writes.checked", "refresh_writes.checked", "bg_builds.checked", "bg_builds.caller_cancelled", "skipread.owner_built", "expiry.checked", "fold.with_cell", "fold.zero_update_on_nonzero", "caller_ttl_after.checked", "path.sync", "path.bg", "built_values.store_checked", "scopes.equal_durations"},
 		Assumptions: []string{"without a caller TTL cell the doc promises no propagation: both the backend default and the builder's minimum are accepted", "expiry bounds as in C10 (jitter default 0.1)"},
 		Timeout:     func(string) time.Duration { return 45 * time.Minute },
 	})
@@ -37,9 +40,98 @@ func runC06(b *Batch) {
 		if b.Skip(i) {
 			continue
 		}
+		if i%32 == 17 {
+			c06Scopes(b, i)
+			continue
+		}
 		c06Case(b, i)
 		collectGarbage(i)
 	}
+}
+
+// c06Scopes: TTL scopes. WithTTL(ctx, d, false) opens a new scope: a builder (or nested Failover) that lowers the TTL of the
+// scope it was called with must not change what an outer or sibling scope carries, whatever the durations are (equal
+// durations and zero included), and whatever the order of the Gets. The outer caller's values keep their TTL.
+func c06Scopes(b *Batch, idx int) {
+	rng := rand.New(rand.NewSource(b.CaseSeed(idx)))
+	p := foPairings[rng.Intn(3)]
+	durs := []time.Duration{0, time.Hour, time.Hour, 2 * time.Hour, time.Minute}
+	outerD := durs[rng.Intn(len(durs))]
+	innerD := durs[rng.Intn(len(durs))]
+	if rng.Intn(2) == 0 {
+		innerD = outerD // the same constant used at both levels
+	}
+	lower := time.Duration(1+rng.Intn(30)) * time.Second
+	be := newBackend(p[1], cache.Config{ExpirationJitter: -1})
+	var get func(ctx context.Context, key string, build func(ctx context.Context) string) error
+	if p[0] == "FailoverOf" {
+		f := cache.NewFailoverOf[string](cache.FailoverConfigOf[string]{Backend: be.(ofAdapter).m}.Use)
+		get = func(ctx context.Context, key string, build func(ctx context.Context) string) error {
+			_, err := f.Get(ctx, []byte(key), func(ctx context.Context) (string, error) { return build(ctx), nil })
+			return err
+		}
+	} else {
+		var rw cache.ReadWriter
+		switch a := be.(type) {
+		case smAdapter:
+			rw = a.m
+		case syAdapter:
+			rw = a.m
+		}
+		f := cache.NewFailover(cache.FailoverConfig{Backend: rw}.Use)
+		get = func(ctx context.Context, key string, build func(ctx context.Context) string) error {
+			_, err := f.Get(ctx, []byte(key), func(ctx context.Context) (interface{}, error) { return build(ctx), nil })
+			return err
+		}
+	}
+	outer := cache.WithTTL(bg, outerD, false)
+	inner := cache.WithTTL(outer, innerD, false)
+	sibling := cache.WithTTL(outer, innerD, false)
+	desc := map[string]interface{}{"api": p[0], "backend": p[1], "outer": outerD.String(), "inner": innerD.String(), "lowered_to": lower.String()}
+	fail := func(what, msg string) {
+		b.R.Violate(b, idx, "C06:"+p[0]+":scopes:"+what, fmt.Sprintf("%s: %s %v", what, msg, desc), desc)
+	}
+	b.R.Eval()
+	b.R.Count("scopes.cases", 1)
+	if outerD == innerD {
+		b.R.Count("scopes.equal_durations", 1)
+	}
+	b.R.Nontrivial(fmt.Sprintf("scopes/%s/%s/outer=%v/inner=%v", p[0], p[1], outerD, innerD))
+	order := rng.Intn(2)
+	if order == 0 {
+		_ = get(outer, "outer-before", func(context.Context) string { return "v" })
+	}
+	// the inner Get's builder lowers the TTL of its scope
+	_ = get(inner, "inner", func(ctx context.Context) string { cache.WithTTL(ctx, lower, true); return "v" })
+	if got := cache.TTL(outer); got != outerD {
+		fail("outer-scope-altered", fmt.Sprintf("TTL of the outer scope changed from %v to %v after a builder lowered the TTL of an inner scope", outerD, got))
+	}
+	if got := cache.TTL(sibling); got != innerD {
+		fail("sibling-scope-altered", fmt.Sprintf("TTL of a sibling scope changed from %v to %v", innerD, got))
+	}
+	if got := cache.TTL(inner); got != lower {
+		fail("inner-scope-not-lowered", fmt.Sprintf("TTL of the inner scope is %v after the builder lowered it to %v", got, lower))
+	}
+	t0 := time.Now()
+	_ = get(outer, "outer-after", func(context.Context) string { return "v" })
+	t1 := time.Now()
+	want := outerD
+	if want == 0 {
+		want = 5 * time.Minute
+	}
+	be.Walk(func(k []byte, _ interface{}, exp time.Time) error {
+		switch string(k) {
+		case "outer-after":
+			if exp.Before(t0.Add(want)) || exp.After(t1.Add(want)) {
+				fail("outer-value-ttl", fmt.Sprintf("value built for the outer scope (TTL %v) expires in %v", want, exp.Sub(t0).Round(time.Second)))
+			}
+		case "inner":
+			if exp.After(t1.Add(lower)) {
+				fail("inner-value-ttl", fmt.Sprintf("value whose builder lowered the TTL to %v expires in %v", lower, exp.Sub(t0).Round(time.Second)))
+			}
+		}
+		return nil
+	})
 }
 
 func ttlFold(cur time.Duration, upd []ttlUpd) time.Duration {
@@ -79,6 +171,7 @@ func c06Case(b *Batch, idx int) {
 	c.Cfg.UpdateTTL = c06UpdateTTL
 	c.Cfg.Observe = rng.Intn(2) == 0
 	c.Cfg.SliceVals = c.Cfg.Observe && c.Cfg.API == "Failover" && rng.Intn(2) == 0
+	c.Cfg.PtrVals = !c.Cfg.SliceVals && c.Cfg.API == "Failover" && rng.Intn(3) == 0
 	sameValues := rng.Intn(3) == 0 // the data source did not change: builders return what is already cached
 	c.FailPct = []int{0, 0, 30}[rng.Intn(3)]
 	for w := range c.Scripts {
